@@ -19,7 +19,7 @@ tvars == <<l, ids, accepted, formatted>>
 Tr == ndJsonDeserialize(IOEnv.TRACE)
 Ev == Tr[l]
 Is(e) == l <= Len(Tr) /\ Ev.e = e /\ l' = l + 1
-Slots == 0..5
+Slots == 0..7
 KeepM == UNCHANGED vars
 
 TInit == /\ l = 1 /\ TLCSet(1, 0) /\ ids = [s \in Slots |-> 0] /\ accepted = [s \in Slots |-> TRUE] /\ formatted = [s \in Slots |-> FALSE]
@@ -87,8 +87,12 @@ Hist == /\ Is("hist") /\ UNCHANGED <<ids, accepted, formatted>>
                                  /\ dPrefix' = None
                                  /\ UNCHANGED <<cLoaded, cRef, cPrefix, dLoaded, dRef, dSet, multi, frameDict, frameID>>
 
+\* a multi-DDict set of n dictionaries (IDs chosen to collide in the set's hash table): each frame is decoded with the dictionary it
+\* names, and a frame naming a dictionary that is not in the set is refused
+MultiN == /\ Is("multiN") /\ (Ev.made = Ev.n => (Ev.okAll /\ Ev.refusedUnknown)) /\ UNCHANGED <<ids, accepted, formatted>> /\ KeepM
+
 End == Is("end") /\ UNCHANGED <<ids, accepted, formatted>> /\ KeepM
-TNext == DictEv \/ Loaders \/ RT \/ Wrong \/ HistBegin \/ HistEnd \/ Hist \/ End
+TNext == MultiN \/ DictEv \/ Loaders \/ RT \/ Wrong \/ HistBegin \/ HistEnd \/ Hist \/ End
 Track == IF l > TLCGet(1) THEN TLCSet(1, l) ELSE TRUE
 TraceAccepted == IF TLCGet(1) = Len(Tr) + 1 THEN TRUE
                  ELSE /\ PrintT(<<"TRACE-REJECT matched", TLCGet(1) - 1, "of", Len(Tr), "next line", IF TLCGet(1) <= Len(Tr) THEN Tr[TLCGet(1)] ELSE <<>> >>)
